@@ -18,7 +18,7 @@
 From Coq Require Import QArith String.
 From CKT Require Import Model.CutFinder Extracted.Facts
   Proofs.UFP Proofs.CutFinderSpec Proofs.CutFinderOut Proofs.CutFinderCirc Proofs.CutFinderRender Proofs.CutFinderP
-  Proofs.CutFinderFail Proofs.CutFinderFuel Proofs.CutFinderTotal Proofs.CutFinderExt Proofs.CutFinderQueue.
+  Proofs.CutFinderFail Proofs.CutFinderFuel Proofs.CutFinderTotal Proofs.CutFinderExt Proofs.CutFinderQueue Proofs.CutFinderAudit.
 Close Scope Q_scope.
 
 (* the output is the input with only markers added *)
@@ -60,6 +60,39 @@ Theorem c07_feasible : forall fuel i r,
   feasible (fi_W i) (fr_circ r).
 Proof. exact feasible_result. Qed.
 
+(* ALL CLAUSES WITH ONE PLAN: there is one permitted plan p such that the output is its rendering, the overhead is its
+   product, the output is feasible, every input instruction / marker sits at the closed-form position and the metadata is
+   exactly that list - and p is THE plan: any permitted plan with the same rendering coincides with it (so "the cuts
+   actually made" is determined by the returned circuit) *)
+Theorem c07_correct : forall fuel i r,
+  find_cuts_full fuel i = Val r ->
+  let t := fi_gtab i in let c := fi_circ i in
+  circ_wf c -> circ_plain c -> gtab_ok t ->
+  exists p : plan,
+    fr_circ r = render t p c /\ plan_permitted t (fi_gate_lo i) (fi_wire_lo i) c p /\
+    (forall p', plan_permitted t (fi_gate_lo i) (fi_wire_lo i) c p' -> fr_circ r = render t p' c -> forall k, p' k = p k) /\
+    (md_overhead (fr_meta r) == plan_overhead t p c)%Q /\
+    feasible (fi_W i) (fr_circ r) /\
+    (forall k x, nth_error c k = Some x ->
+       let o := k + offset p 0 k in
+       nth_error (fr_circ r) (o + nmark (p k)) = Some (placed t (p k) x) /\
+       (p k = KGateCut -> In (GateCut, o) (md_cuts (fr_meta r))) /\
+       (forall m, m < nmark (p k) ->
+          nth_error (fr_circ r) (o + m) = Some (cut_wire_instr (marker_qubit (p k) x m)) /\
+          In (WireCut, o + m) (md_cuts (fr_meta r)))) /\
+    (forall kd pos, In (kd, pos) (md_cuts (fr_meta r)) ->
+       exists k x, nth_error c k = Some x /\
+         ((kd = GateCut /\ p k = KGateCut /\ pos = k + offset p 0 k) \/
+          (kd = WireCut /\ exists m, m < nmark (p k) /\ pos = k + offset p 0 k + m))).
+Proof. exact correct_bundle. Qed.
+
+(* a rendering determines its plan (plain circuit, two distinct qubits per gate, wrapped forms are QPD gates) *)
+Theorem c07_render_injective : forall t gl wl c p p',
+  circ_wf c -> circ_plain c -> gtab_ok t ->
+  plan_permitted t gl wl c p -> plan_permitted t gl wl c p' ->
+  render t p c = render t p' c -> forall k, p k = p' k.
+Proof. exact render_injective. Qed.
+
 (* a ValueError only if no placement of the permitted cut kinds meets the width limit.
    Hypotheses = the property's domain: multi-qubit gates are supported two-qubit gates (kappa known), no classical bits,
    valid settings; ALL four combinations of allowed cut kinds.  (The proof shows more: the greedy pass can only dead-end
@@ -70,17 +103,46 @@ Theorem c07_fails_only_if_infeasible : forall fuel i,
   let t := fi_gtab i in let c := fi_circ i in
   circ_wf c -> circ_plain c ->
   (forall x, In x c -> is_multi x = true -> kappa_of t x <> None) ->
-  fi_ncl i = 0 -> 1 <= fi_W i -> settings_ok i = true ->
+  fi_ncl i = 0 -> settings_ok i = true ->
   forall p, plan_permitted t (fi_gate_lo i) (fi_wire_lo i) c p -> ~ feasible (fi_W i) (render t p c).
-Proof. exact fails_only_if_infeasible. Qed.
+Proof. exact fails_only_if_infeasible'. Qed.
+
+(* the domain boundary made explicit: with classical bits find_cuts NEVER returns (cut_gates refuses such circuits),
+   feasible or not - which is why fi_ncl = 0 is a premise above; with enough fuel the outcome is exactly ValueError *)
+Theorem c07_clbits_always_refused : forall fuel i,
+  fi_ncl i <> 0 ->
+  (forall r, find_cuts_full fuel i <> Val r) /\
+  (circ_wf (fi_circ i) -> fuel_bound (length (fi_circ i)) <= fuel -> find_cuts_full fuel i = Ref).
+Proof. intros fuel i H. split; [intros r; exact (clbits_not_val fuel i r H)|exact (clbits_refused fuel i H)]. Qed.
 
 (* no exception other than ValueError: none of the assertions of the actions, of check_donot_merge_roots / merge_roots /
    new_wire, of SimpleGateList.insert_wire_cut (`src_wire_id == new_gate_spec.qubits[input_id-1]`), of NameToIDMap.define_id
-   — all executed inside LOCutsOptimizer.optimize via best_result.export_cuts(interface) — is reachable, and no list index
-   is out of range; for every circuit whose multi-qubit gates act on two distinct qubits, all settings, all tapes *)
+   - all executed inside LOCutsOptimizer.optimize via best_result.export_cuts(interface) - is reachable, and none of the
+   lookups modelled with nth_error (cut_gates, circuit.data[inst_id].qubits[..], entangling_gates[level], the interface
+   lists) is out of range; for every circuit whose multi-qubit gates act on two distinct qubits, all settings, all tapes.
+   The array accesses that the model totalises (nth with a default for wiremap/uptree/width, upd as a no-op out of range)
+   cannot yield Crash by construction; that they are in range all the same is c07_indices_in_range below. *)
 Theorem c07_export_never_crashes : forall fuel i,
   circ_wf (fi_circ i) -> find_cuts_full fuel i <> Crash.
 Proof. exact find_cuts_never_crashes. Qed.
+
+(* the totalised array accesses never use their defaults: in EVERY state obtainable from a start state by the search's
+   expansion step (these are the only states the greedy pass and the best-first queue ever hold), and in the returned
+   state, wiremap has one entry per qubit id, every wire id is below num_wires <= len(uptree) = len(width), parents are not
+   above their children, roots of live wires are live wires, the level indexes an existing 2-qubit gate spec with two
+   different in-range qubit ids, no-merge clauses mention live wires, and wire-cut arguments are (1|2, wire, new wire)
+   triples (so args[k][0]-1 is 0 or 1, never -1) *)
+Theorem c07_indices_in_range : forall nq t c W gl wl m s,
+  circ_wf c -> 1 <= W ->
+  let names := names_of nq t c in let gates := gates_of nq t c in
+  Reach {| fa_gates := gates; fa_actions := search_actions gl wl; fa_W := W |} (init_state (length names) m) s ->
+  in_range (length names) gates s.
+Proof. exact reach_in_range. Qed.
+
+Theorem c07_result_in_range : forall fuel i r,
+  find_cuts_full fuel i = Val r -> circ_wf (fi_circ i) ->
+  in_range (length (names_of (fi_nq i) (fi_gtab i) (fi_circ i))) (gates_of (fi_nq i) (fi_gtab i) (fi_circ i)) (fr_best r).
+Proof. exact result_in_range. Qed.
 
 (* the out-of-fuel value of the model is not an outcome: the best-first loop and the repeat-until-None driver terminate
    within fuel_bound n = (5^(n+1) - 1)/4 + 3 pops per pass, n = number of instructions *)
@@ -94,11 +156,11 @@ Theorem c07_succeeds_when_feasible : forall fuel i,
   let t := fi_gtab i in let c := fi_circ i in
   circ_wf c -> circ_plain c ->
   (forall x, In x c -> is_multi x = true -> kappa_of t x <> None) ->
-  fi_ncl i = 0 -> 1 <= fi_W i -> settings_ok i = true ->
+  fi_ncl i = 0 -> settings_ok i = true ->
   fuel_bound (length c) <= fuel ->
   (exists p, plan_permitted t (fi_gate_lo i) (fi_wire_lo i) c p /\ feasible (fi_W i) (render t p c)) ->
   exists r, find_cuts_full fuel i = Val r.
-Proof. exact succeeds_when_feasible. Qed.
+Proof. exact succeeds_when_feasible'. Qed.
 
 (* THE RUNNING INSERTION OFFSET, for any mix and order of gate and wire cuts: input instruction k sits in the output at
    k + (number of CutWire markers of instructions 0..k-1) + (its own markers); its markers sit directly before it;
@@ -153,10 +215,35 @@ Proof.
   intros. split; [apply SD_initialize|]. split; [apply SD_update_upperbound|apply pass_loop_SD].
 Qed.
 
-(* union-find: the path-collapsing loop of find_wire_root (left out of the model) is unobservable *)
-Theorem c07_compression_invisible : forall u w, uf_wf u ->
-  uf_wf (compress u w) /\ forall x, find (compress u w) x = find u x.
-Proof. exact find_compress. Qed.
+(* (4) CAPSTONE: run the whole optimisation (greedy start, best-first passes, CutOptimization fall-back, driver loop) with
+   ANY pop function that, on a non-empty heap, returns an entry with no smaller entry and removes exactly it: same outcome
+   kind, same best state, same list of goals, same counters/flag/greedy state; the queues agree up to order *)
+Theorem c07_any_pop_same_search : forall tape fa mg mb (pop : list qentry -> option (qentry * list qentry)),
+  (forall l, l <> [] -> exists e rest, pop l = Some (e, rest)) ->
+  (forall l e rest, pop l = Some (e, rest) -> In e l /\ minimal_in e l /\ Permutation.Permutation l (e :: rest)) ->
+  forall nq fuel,
+  match optimize tape fa mg mb nq fuel, optimize_gen tape fa mg mb pop nq fuel with
+  | Val r, Val r' => or_best r = or_best r' /\ or_goals r = or_goals r' /\
+                     cosim (or_cutopt r) (or_cutopt r')
+  | Ref, Ref | Crash, Crash | NoFuel, NoFuel => True
+  | _, _ => False
+  end.
+Proof. exact optimize_gen_sim. Qed.
+
+(* union-find: the path-collapsing loop of find_wire_root is left out of the model state.  Proved: compression yields an
+   EQUIVALENT forest (same length, well-formed, same find for every wire, same roots), and union_roots maps equivalent
+   forests to equivalent forests - so every union-find operation the model uses (find, is_root, length, union_roots)
+   cannot tell a compressed forest from an uncompressed one.  NOT proved as one statement: the induced simulation of whole
+   runs of the search with compression at every find (it follows operation by operation from the two theorems). *)
+Theorem c07_compression_congruence : forall u w x, uf_wf u ->
+  uf_wf (compress u w) /\ length (compress u w) = length u /\
+  find (compress u w) x = find u x /\ is_root (compress u w) x = is_root u x.
+Proof. exact compression_congruence. Qed.
+
+Theorem c07_union_respects_equiv : forall u u' r1 r2,
+  uf_equiv u u' -> r1 <> r2 -> is_root u r1 = true -> is_root u r2 = true -> Nat.max r1 r2 < length u ->
+  uf_equiv (union_roots u r1 r2) (union_roots u' r1 r2).
+Proof. exact union_roots_equiv. Qed.
 
 (* ---------------- non-vacuity ---------------- *)
 Definition ex_q2 := Qpd2 0 None (Some (0, None)).
@@ -230,6 +317,49 @@ Proof.
   intros x [<-|[<-|[]]]; reflexivity.
 Qed.
 
+(* both cut kinds in one result, search cut short (max_gamma = 1, max_backjumps = 0): greedy fall-back, a wire-cut marker
+   BEFORE a later gate cut (the gate cut sits at output position 5 = input position 4 + 1 marker), overhead 16 * 9 *)
+Definition ex_mixed : fc_input :=
+  mkIn 4 0 ex_circ ex_gtab 2 true true 1%Q (Some 0%Z) (fun k => Qmake (Z.of_nat k) 100).
+Example c07_ex_mixed_truncated : exists r, find_cuts_full 100 ex_mixed = Val r /\
+  fr_circ r = [mkI (Gate 2) [2] []; mkI (Gate 0) [0; 2] []; mkI (Barrier None) [0; 2] []; mkI CutWire [2] [];
+               mkI (Gate 1) [2; 1] []; mkI ex_q2 [0; 2] []] /\
+  md_cuts (fr_meta r) = [(WireCut, 3); (GateCut, 5)] /\ (md_overhead (fr_meta r) == 144)%Q /\
+  md_minimum_reached (fr_meta r) = false /\ fr_greedy r = Some (fr_best r).
+Proof. eexists; split; [vm_compute; reflexivity|]. repeat split. Qed.
+
+(* a non-trivial reachable state (one expansion step from the start state of the example) *)
+Example c07_ex_reach :
+  let fa := {| fa_gates := gates_of 4 ex_gtab ex_circ; fa_actions := search_actions true true; fa_W := 2 |} in
+  exists s, Reach fa (init_state (length (names_of 4 ex_gtab ex_circ)) 6) s /\ level s = 1.
+Proof.
+  intros fa. eexists. split.
+  - eapply reach_step; [apply reach_refl|vm_compute; reflexivity|vm_compute; reflexivity|left; reflexivity].
+  - reflexivity.
+Qed.
+
+(* classical bits: refused although the same circuit without them is fine *)
+Example c07_ex_clbits : find_cuts_full 100 (mkIn 4 1 ex_circ ex_gtab 2 true false 1024%Q (Some 10000%Z) (fun k => Qmake (Z.of_nat k) 100)) = Ref.
+Proof. vm_compute. reflexivity. Qed.
+
+(* a pop that is NOT the model's (it scans the reversed list) satisfies the heappop contract *)
+Example c07_ex_other_pop :
+  let pop := fun l => extract_min (rev l) in
+  (forall l, l <> [] -> exists e rest, pop l = Some (e, rest)) /\
+  (forall l e rest, pop l = Some (e, rest) -> In e l /\ minimal_in e l /\ Permutation.Permutation l (e :: rest)).
+Proof.
+  split.
+  - intros l Hl. cbv beta. destruct (rev l) as [|x r] eqn:E.
+    + exfalso. apply Hl. rewrite <- (rev_involutive l), E. reflexivity.
+    + unfold extract_min. destruct (extract_min_from x [] r). eauto.
+  - intros l e rest H. destruct (extract_min_pops_minimum _ _ _ H) as [P M].
+    assert (PR : Permutation.Permutation l (rev l)) by apply Permutation.Permutation_rev.
+    split; [|split].
+    + apply in_rev. eapply Permutation.Permutation_in; [apply Permutation.Permutation_sym; exact P|now left].
+    + intros x Hx. apply M. now apply in_rev in Hx.
+    + eapply Permutation.Permutation_trans; [exact PR|exact P].
+Qed.
+
 (* tie to the source: the constants and tables hard-coded in Model/CutFinder*.v *)
 Theorem c07_facts :
   (inject_Z (Z.of_nat cf_left_wire_mult) = left_wire_mult /\
@@ -271,5 +401,12 @@ Print Assumptions c07_pop_is_minimum.
 Print Assumptions c07_pop_contract_determines.
 Print Assumptions c07_queue_is_multiset.
 Print Assumptions c07_queue_seqs_distinct.
-Print Assumptions c07_compression_invisible.
+Print Assumptions c07_correct.
+Print Assumptions c07_render_injective.
+Print Assumptions c07_clbits_always_refused.
+Print Assumptions c07_indices_in_range.
+Print Assumptions c07_result_in_range.
+Print Assumptions c07_any_pop_same_search.
+Print Assumptions c07_compression_congruence.
+Print Assumptions c07_union_respects_equiv.
 Print Assumptions c07_facts.
